@@ -49,13 +49,17 @@ def _bundles(ka, wa, kb, wb, kc, wc, f2, f3, fan, m2):
     T = h.Bundle(name="T")
     T.roles = ROLES
     T.add(_leaf(ka, wa, "a"))
+    if fan:
+        # a DIRECT sub-bundle called `t0`, declared before `s0`, whose own definition holds another `t0`:
+        # one member name at two levels (`bb.t0.c` is not `bb.s0.t0.c`)
+        T.add(h.BundleInstance(name="t0", of=L))
     s0 = h.BundleInstance(name="s0", of=M, flipped=(f2 != m2), port=bool(fan))
     if m2:
         s0 = h.flipped(s0)  # flip through the function instead of the constructor flag
     T.add(s0)
     if fan:
         T.add(h.BundleInstance(name="s1", of=M))
-    T._verif_M = M
+    T._verif_M, T._verif_L = M, L
     return T
 
 
@@ -67,6 +71,7 @@ def _expected(ka, wa, kb, wb, kc, wc, f1, f2, f3, fan, role):
     out.append((("s0", "b"), wb, _expected_dir(kb, p2, 0, 2)))
     out.append((("s0", "t0", "c"), wc, _expected_dir(kc, p2 != bool(f3), 0, 3)))
     if fan:
+        out.append((("t0", "c"), wc, _expected_dir(kc, p1, 0, 2)))
         out.append((("s1", "b"), wb, _expected_dir(kb, p1, 0, 2)))
         out.append((("s1", "t0", "c"), wc, _expected_dir(kc, p1 != bool(f3), 0, 3)))
     return out
@@ -87,6 +92,9 @@ def _run(ka, wa, kb, wb, kc, wc, f1, m1, f2, m2, f3, fan, role, is_port, via=Fal
     # something inside C touches each leaf so that the flattened signals are used
     E = h.ExternalModule(name="E", port_list=[h.Port(name="x", width=wa), h.Port(name="y", width=wb), h.Port(name="z", width=wc)], paramtype=dict)
     C.u = E({})(x=C.bb.a, y=C.bb.s0.b, z=C.bb.s0.t0.c)
+    if fan:
+        E2 = h.ExternalModule(name="E2", port_list=[h.Port(name="z", width=wc)], paramtype=dict)
+        C.u2 = E2({})(z=C.bb.t0.c)
     top = C
     if is_port:
         P = h.Module(name="P")
@@ -99,6 +107,8 @@ def _run(ka, wa, kb, wb, kc, wc, f1, m1, f2, m2, f3, fan, role, is_port, via=Fal
             if fan:
                 P.ms1 = h.BundleInstance(of=T._verif_M)
                 members["s1"] = P.ms1
+                P.mt0 = h.BundleInstance(of=T._verif_L)
+                members["t0"] = P.mt0
             P.c = C(bb=h.AnonymousBundle(**members))
         else:
             P.pb = h.BundleInstance(of=T)
@@ -119,6 +129,16 @@ def _run(ka, wa, kb, wb, kc, wc, f1, m1, f2, m2, f3, fan, role, is_port, via=Fal
         sw = {s.name: s.width for s in pc.signals}
         ports = {p.signal: vckt.Port.Direction.Name(p.direction) for p in pc.ports}
         want_names = {"bb_" + "_".join(path): (w, d) for path, w, d in exp}
+        # the references used inside C resolve to the members they name (`bb.s0.t0.c` is not `bb.t0.c`)
+        uses = {("u", "x"): "bb_a", ("u", "y"): "bb_s0_b", ("u", "z"): "bb_s0_t0_c"}
+        if fan:
+            uses[("u2", "z")] = "bb_t0_c"
+        for ci in pc.instances:
+            for cc in ci.connections:
+                wantsig = uses.get((ci.name, cc.portname))
+                if wantsig is not None and (cc.target.WhichOneof("stype") != "sig" or cc.target.sig != wantsig):
+                    WHY["why"] = f"{ci.name}.{cc.portname} is on {cc.target}, the reference names {wantsig}"
+                    return False
         if is_port:
             got = {n: (sw.get(n), d) for n, d in ports.items()}
             if got != want_names:
@@ -136,7 +156,7 @@ def _run(ka, wa, kb, wb, kc, wc, f1, m1, f2, m2, f3, fan, role, is_port, via=Fal
                 t = conns["bb_" + "_".join(path)]
                 pname = "pb_" + "_".join(path)
                 if via:  # a -> pa; s0.<...> -> ms_<...>; s1.<...> -> ms1_<...>
-                    pname = "pa" if path == ("a",) else "_".join(({"s0": "ms", "s1": "ms1"}[path[0]],) + path[1:])
+                    pname = "pa" if path == ("a",) else "_".join(({"s0": "ms", "s1": "ms1", "t0": "mt0"}[path[0]],) + path[1:])
                 if t.WhichOneof("stype") != "sig" or t.sig != pname or psw.get(t.sig) != w:
                     WHY["why"] = f"member {path} paired with {t}"
                     return False
